@@ -4,14 +4,22 @@ import (
 	"fmt"
 	"strconv"
 	"strings"
+
+	fpb "github.com/anoideaopen/foundation/proto"
 )
 
 func genC05(c *Ctx) error {
 	c.ShardSize = 25
-	c.Notes["rule"] = "histories of 10-30 steps on one chaincode (LevelDB or CouchDB key rules): submissions of scripted transactions (valid ones, and ones rejected at submission: corrupted signature, unknown method argument count) and batches whose id lists are random multisets of pending, already executed, unknown and duplicated ids. Observed after every step: the ledger projection (data, pending, nonce keys) and, for batches, the reply per listed id. Non-trivial: some id is listed at least twice over the history."
+	c.Notes["rule"] = "histories of 10-30 steps on one chaincode (LevelDB or CouchDB key rules): submissions of scripted transactions (valid ones, and ones rejected at submission: corrupted signature, missing signature, a black-listed or malformed address argument) and batches whose id lists are random multisets of pending, already executed, unknown and duplicated ids. Observed after every step: the ledger projection (data, pending, nonce keys) and, for batches, the reply per listed id. Non-trivial: some id is listed at least twice over the history. Second part (pipeline cases): histories of 10-25 whole invocations on one chaincode (the scripted method sometimes disabled): signed submissions by ordinary / robot / malformed creators from single-key and 2-of-3 accounts, honest or broken (corrupted, foreign-key, other-message or blank signature, other channel name, altered script, unsigned, bad nonce string; access-control answer ok / black / grey / failing / without key types), batchExecute by the robot or by others with multisets of known / repeated / unknown ids, executeTasks lists of 1-3 such requests by any creator; observed after every invocation: response class and the ledger projection; compared with Model/Pipeline.v step by step. Non-trivial there: >= 2 recorded, >= 2 refused, >= 1 executed."
 	n := c.N(200, 4000)
 	for i := 0; i < n; i++ {
 		if err := c05Case(c); err != nil {
+			return err
+		}
+	}
+	// whole invocations against the composed model (gate, authentication, pending store, batches, task lists)
+	for i := c.N(60, 1200); i > 0; i-- {
+		if err := c05Pipe(c); err != nil {
 			return err
 		}
 	}
@@ -41,24 +49,47 @@ func c05Case(c *Ctx) error {
 			sender := rng.Intn(3)
 			acc := bw.senders[sender]
 			bi := bw.bodyIndex(body)
+			fn, bad := "script", false
 			args := w.SignedArgs("tt", "script", acc, strconv.FormatUint(bw.nonce, 10), bodyScript(body))
+			if rng.Intn(4) == 0 {
+				// a method with an address argument, which submission validates against the access-control list
+				fn = "scriptTo"
+				to := bw.senders[rng.Intn(3)].AddrString()
+				switch rng.Intn(6) {
+				case 0, 1:
+					to, bad = bw.blackAddr(), true // black-listed
+					c.Count("submit_blacklisted_argument")
+				case 2:
+					to, bad = []string{"", "xyz", to[:len(to)-2]}[rng.Intn(3)], true // not an address
+					c.Count("submit_malformed_argument")
+				}
+				args = w.SignedArgs("tt", fn, acc, strconv.FormatUint(bw.nonce, 10), to, bodyScript(body))
+			}
 			switch rng.Intn(10) {
 			case 0:
-				args[len(args)-1] = args[len(args)-1][:len(args[len(args)-1])-2] + "11" // corrupted signature
+				// corrupted signature: the last two characters replaced (by others than they are)
+				sig := args[len(args)-1]
+				tail := "11"
+				if strings.HasSuffix(sig, "11") {
+					tail = "22"
+				}
+				args[len(args)-1] = sig[:len(sig)-2] + tail
+				bad = true
 			case 1:
 				args = args[:len(args)-2] // not signed at all
+				bad = true
 			}
 			if rng.Intn(6) == 0 { // a batched method without a sender: unsigned, no nonce
 				res := w.Submit("tt", "plain", []string{bodyScript(body)})
-				hist = append(hist, fmt.Sprintf("HSub %d 0 0 %d %s %s", txNum(res.TxID), bi, coqBool(res.OK()), bw.ledgerTerm()))
+				hist = append(hist, fmt.Sprintf("HSub %d 0 0 %d false %s %s", txNum(res.TxID), bi, coqBool(res.OK()), bw.ledgerTerm()))
 				if res.OK() {
 					known = append(known, res.TxID)
 					c.Count("submit_plain_ok")
 				}
 				continue
 			}
-			res := w.Submit("tt", "script", args)
-			hist = append(hist, fmt.Sprintf("HSub %d %d %d %d %s %s", txNum(res.TxID), acc.N(), bw.nonce, bi, coqBool(res.OK()), bw.ledgerTerm()))
+			res := w.Submit("tt", fn, args)
+			hist = append(hist, fmt.Sprintf("HSub %d %d %d %d %s %s %s", txNum(res.TxID), acc.N(), bw.nonce, bi, coqBool(bad), coqBool(res.OK()), bw.ledgerTerm()))
 			if res.OK() {
 				known = append(known, res.TxID)
 				c.Count("submit_ok")
@@ -108,3 +139,12 @@ func c05Case(c *Ctx) error {
 }
 
 func init() { props["C05"] = genC05 }
+
+// blackAddr registers (once) an account the access-control list reports as black-listed.
+func (bw *batchWorld) blackAddr() string {
+	if bw.black == nil {
+		bw.black = bw.w.NewAccount(fpb.KeyType_ed25519)
+		bw.black.Black = true
+	}
+	return bw.black.AddrString()
+}
